@@ -6,6 +6,7 @@ import (
 	"sort"
 	"sync"
 	"sync/atomic"
+	"time"
 
 	"github.com/gcash/bchd/chaincfg/chainhash"
 	"github.com/gcash/bchd/wire"
@@ -15,12 +16,93 @@ import (
 
 func init() {
 	families["C20"] = runC20
-	ops["ConcRound"] = opConcRound
-	ops["LinRound"] = opConcRound
-	ops["AtomRound"] = opAtomRound
-	ops["TxRound"] = opTxRound
-	ops["TxReloadRound"] = opTxReloadRound
-	ops["LoadedRound"] = opLoadedRound
+	ops["ConcRound"] = withDeadlock(opConcRound)
+	ops["LinRound"] = withDeadlock(opConcRound)
+	ops["AtomRound"] = withDeadlock(opAtomRound)
+	ops["TxRound"] = withDeadlock(opTxRound)
+	ops["TxReloadRound"] = withDeadlock(opTxReloadRound)
+	ops["LoadedRound"] = withDeadlock(opLoadedRound)
+	ops["UnloadedRound"] = withDeadlock(opUnloadedRound)
+}
+
+// waitWG waits for the goroutines of a round; if they do not all return within 30 s the round is deadlocked (the
+// goroutines are abandoned) and the event of the op in progress is marked (clause "panic").
+var deadlockSeen, deadlockTotal int32
+
+func waitWG(wg *sync.WaitGroup) bool {
+	done := make(chan struct{})
+	go func() { wg.Wait(); close(done) }()
+	select {
+	case <-done:
+		return true
+	case <-time.After(30 * time.Second):
+		atomic.StoreInt32(&deadlockSeen, 1)
+		atomic.AddInt32(&deadlockTotal, 1)
+		return false
+	}
+}
+
+const deadlockMsg = "deadlock: the goroutines of the round did not all return within 30 s"
+
+func withDeadlock(fn OpFn) OpFn {
+	return func(h *HState, a Event) Event {
+		e := fn(h, a)
+		if atomic.SwapInt32(&deadlockSeen, 0) != 0 {
+			e["panic"] = deadlockMsg
+		}
+		return e
+	}
+}
+
+// opUnloadedRound: a filter that was unloaded before the round and is never reloaded in it: from every goroutine
+// IsLoaded is false, MsgFilterLoad is nil and nothing matches, whatever the others are doing at that moment.
+func opUnloadedRound(_ *HState, a Event) Event {
+	f := bloom.LoadFilter(wire.NewMsgFilterLoad(make([]byte, 8), 2, 1, wire.BloomUpdateAll))
+	f.Add([]byte{1})
+	f.Unload()
+	var loadedTrue, msgNonNil, matchTrue, panics int32
+	var wg sync.WaitGroup
+	start := make(chan struct{})
+	k, n := gInt(a, "k"), gInt(a, "n")
+	for g := 0; g < k; g++ {
+		wg.Add(1)
+		go func(g int) {
+			defer wg.Done()
+			<-start
+			p, _ := guard(func() {
+				for i := 0; i < n; i++ {
+					switch (g + i) % 5 {
+					case 0:
+						f.Add([]byte{byte(i)})
+					case 1:
+						if f.Matches([]byte{1}) {
+							atomic.AddInt32(&matchTrue, 1)
+						}
+					case 2, 3:
+						if f.IsLoaded() {
+							atomic.AddInt32(&loadedTrue, 1)
+						}
+					case 4:
+						if f.MsgFilterLoad() != nil {
+							atomic.AddInt32(&msgNonNil, 1)
+						}
+					}
+				}
+			})
+			if p {
+				atomic.AddInt32(&panics, 1)
+			}
+		}(g)
+	}
+	close(start)
+	if !waitWG(&wg) { // a wedged filter must not be touched again (every further call would block as well)
+		return with(a, "panic", deadlockMsg)
+	}
+	e := with(a, "loaded_true", int(loadedTrue), "msg_nonnil", int(msgNonNil), "match_true", int(matchTrue))
+	if panics > 0 {
+		e["panic"] = "panic inside a concurrent call on an unloaded filter"
+	}
+	return e
 }
 
 // opTxReloadRound: matchers call MatchTxAndUpdate on a transaction paying to the watched key (update-all) while
@@ -81,7 +163,9 @@ func opTxReloadRound(_ *HState, a Event) Event {
 		atomic.StoreInt32(&stop, 1)
 	}()
 	close(start)
-	wg.Wait()
+	if !waitWG(&wg) { // a wedged filter must not be touched again (every further call would block as well)
+		return with(a, "panic", deadlockMsg)
+	}
 	isInit := map[int]bool{}
 	for _, b := range init {
 		isInit[b] = true
@@ -135,7 +219,9 @@ func opLoadedRound(_ *HState, a Event) Event {
 				}(g)
 			}
 			close(start)
-			wg.Wait()
+			if !waitWG(&wg) {
+				panic(deadlockMsg)
+			}
 			if f.IsLoaded() != (f.MsgFilterLoad() != nil) {
 				if mismatches == 0 {
 					first = r
@@ -183,7 +269,9 @@ func opTxRound(_ *HState, a Event) Event {
 		}(g)
 	}
 	close(start)
-	wg.Wait()
+	if !waitWG(&wg) { // a wedged filter must not be touched again (every further call would block as well)
+		return with(a, "panic", deadlockMsg)
+	}
 	e := with(a, "item", ints(item), "init", init, "txids", txids, "rets", rets, "final", setBits(f.MsgFilterLoad().Filter))
 	if panics > 0 {
 		e["panic"] = "panic inside MatchTxAndUpdate"
@@ -228,7 +316,9 @@ func opAtomRound(_ *HState, a Event) Event {
 		atomic.StoreInt32(&stop, 1)
 	}()
 	close(start)
-	wg.Wait()
+	if !waitWG(&wg) { // a wedged filter must not be touched again (every further call would block as well)
+		return with(a, "panic", deadlockMsg)
+	}
 	var touched []interface{}
 	for i, m := range msgs {
 		if b := setBits(m.Filter); len(b) > 0 {
@@ -335,7 +425,9 @@ func opConcRound(_ *HState, a Event) Event {
 		}(g)
 	}
 	close(start)
-	wg.Wait()
+	if !waitWG(&wg) { // a wedged filter must not be touched again (every further call would block as well)
+		return with(a, "panic", deadlockMsg)
+	}
 	var all []interface{}
 	for _, rs := range results {
 		for _, r := range rs {
@@ -411,7 +503,10 @@ func stress(c *Ctx, k, n int, flags int) int {
 			}
 		}(g)
 	}
-	wg.Wait()
+	if !waitWG(&wg) { // the goroutines never came back: reported like a panic (the filter is not touched again)
+		atomic.StoreInt32(&deadlockSeen, 0)
+		return int(panics) + 1
+	}
 	return int(panics)
 }
 
@@ -423,10 +518,13 @@ func runC20(c *Ctx) {
 	r := c.Rng
 	c.Batch = 25
 	if p := stress(c, 8, c.Pick(400, 4000), 1) + stress(c, 8, c.Pick(200, 2000), 2) + stress(c, 8, c.Pick(200, 2000), 0); p > 0 {
-		c.Call(Event{"op": "ConcRound", "nbytes": 1, "nhash": 1, "tweak": w32(0), "flags": 0, "init": []int{}, "prog": []interface{}{}, "panic": "stress: panic inside concurrent calls"})
+		c.Call(Event{"op": "ConcRound", "nbytes": 1, "nhash": 1, "tweak": w32(0), "flags": 0, "init": []int{}, "prog": []interface{}{}, "panic": "stress: panic or deadlock (no return within 30 s) inside concurrent calls"})
 	}
 	// (ii) one load epoch, any number of goroutines: insertions / queries only
 	for round := 0; round < c.Pick(60, 600); round++ {
+		if atomic.LoadInt32(&deadlockTotal) > 0 { // one deadlock is a verdict; further rounds would only wait
+			break
+		}
 		k := []int{2, 4, 8, 16, 32}[round%5]
 		nbytes := 1 + r.Intn(4)
 		nhash := 1 + r.Intn(3)
@@ -463,29 +561,50 @@ func runC20(c *Ctx) {
 	}
 	// concurrent MatchTxAndUpdate under every update flag: no outpoint insertion may be lost
 	for round := 0; round < c.Pick(90, 900); round++ {
+		if atomic.LoadInt32(&deadlockTotal) > 0 { // one deadlock is a verdict; further rounds would only wait
+			break
+		}
 		c.Call(Event{"op": "TxRound", "k": []int{2, 4, 8, 16}[round%4], "nbytes": 64, "nhash": 3, "tweak": w32(r.Uint32()), "flags": round % 3,
 			"salt": int(r.Int31n(50000))})
 	}
 	// MatchTxAndUpdate against reloads that alternate a matching and an empty message; loaded-flag agreement at quiescence
 	for round := 0; round < c.Pick(12, 120); round++ {
+		if atomic.LoadInt32(&deadlockTotal) > 0 { // one deadlock is a verdict; further rounds would only wait
+			break
+		}
 		c.Call(Event{"op": "TxReloadRound", "k": []int{2, 4}[round%2], "n": 4000, "nbytes": 16, "nhash": 3, "ta": w32(r.Uint32()), "tb": w32(r.Uint32()),
 			"salt": int(r.Int31n(50000))})
 	}
 	c.Call(Event{"op": "LoadedRound", "rounds": c.Pick(60000, 600000)})
+	for round := 0; round < c.Pick(6, 60); round++ {
+		if atomic.LoadInt32(&deadlockTotal) > 0 { // one deadlock is a verdict; further rounds would only wait
+			break
+		}
+		c.Call(Event{"op": "UnloadedRound", "k": []int{4, 8, 16}[round%3], "n": 20000})
+	}
 	// atomicity of an insertion against concurrent reloads with another tweak
 	for round := 0; round < c.Pick(40, 400); round++ {
+		if atomic.LoadInt32(&deadlockTotal) > 0 { // one deadlock is a verdict; further rounds would only wait
+			break
+		}
 		c.Call(Event{"op": "AtomRound", "nbytes": 8, "nhash": 3, "t0": w32(r.Uint32()), "t1": w32(r.Uint32()),
 			"item": ints(randBytes(r, 1024+r.Intn(3072)))})
 	}
 	// immutable GCS filters queried from many goroutines: same answers as sequentially, bytes untouched
 	for round := 0; round < c.Pick(6, 40); round++ {
+		if atomic.LoadInt32(&deadlockTotal) > 0 { // one deadlock is a verdict; further rounds would only wait
+			break
+		}
 		items := gcsItems(c, 2000+r.Intn(3000), 0x21)
 		q := append(gcsItems(c, 10, 0x99), items[3], items[len(items)-1])
-		c.Call(Event{"op": "GcsConc", "items": bytesList(items), "q": bytesList(q), "k": []int{2, 8, 16, 32}[round%4]})
+		c.Call(Event{"op": "GcsConc", "items": bytesList(items), "q": bytesList(q), "k": []int{2, 8, 16, 32}[round%4], "malformed": round%3 == 2})
 	}
 	c.Flush()
 	// (i) small rounds with reload / unload: TLC searches for a linearization
 	for round := 0; round < c.Pick(150, 1500); round++ {
+		if atomic.LoadInt32(&deadlockTotal) > 0 { // one deadlock is a verdict; further rounds would only wait
+			break
+		}
 		k := 2 + r.Intn(3)
 		nbytes := 1 + r.Intn(2)
 		var prog []interface{}
